@@ -70,6 +70,8 @@ def main():
         sh(["git", "-C", "/repo", "worktree", "remove", "--force", wt])
         shutil.rmtree(scratch, ignore_errors=True)
         sh(["git", "-C", "/repo", "worktree", "prune"])
+        # the translators rewrite lean/N0Verif/Gen/* from the scratch checkout: restore the committed files
+        sh(["git", "-C", HERE, "checkout", "--", "lean/N0Verif/Gen"])
 
 
 if __name__ == "__main__":
